@@ -100,6 +100,14 @@ func evalType(c Case) (problems []string, skipped string) {
 	if _, ok := t0.(*postgres.UserDefinedType); ok {
 		return nil, "not a type of its own (parsed as a user-defined type name)"
 	}
+	if u, ok := t0.(*sqlite.UserDefinedType); ok {
+		// the name is all there is to such a type: it is kept as written, and the round trip below starts
+		// from a value holding the name as written (what a program, or an inspection, puts there).
+		if u.T != c.Type {
+			bad("ParseType(%q) keeps the user-defined type as %q", c.Type, u.T)
+		}
+		t0 = &sqlite.UserDefinedType{T: c.Type}
+	}
 	f0, err := cd.format(t0)
 	if err != nil {
 		return nil, "FormatType rejects the parsed type: " + err.Error()
@@ -431,6 +439,10 @@ func Eval(c Case) ([]string, string) {
 // and a seconds precision where the fields include seconds - whatever the registered specs declare.
 func manualTypeStrings(dialect string) []string {
 	var out []string
+	if dialect == "sqlite" {
+		// type names SQLite accepts and Atlas keeps as they are written (user-defined types).
+		return []string{"GEOMETRY", "Point", "VARCHAR2(10)", "my_type", "Money(10, 2)"}
+	}
 	if dialect != "postgres" {
 		return nil
 	}
